@@ -13,7 +13,8 @@ os.environ.setdefault("MPLBACKEND", "Agg")
 
 import argparse, importlib, json, logging, random, sys, time, traceback, warnings
 
-sys.path.insert(0, "/repo")
+REPO = os.environ.get("VERIF_REPO", "/repo")      # experiments only (tools/harmless_eval.sh): the registered commands never set it
+sys.path.insert(0, REPO)
 warnings.filterwarnings("ignore")
 logging.disable(logging.CRITICAL)
 
